@@ -91,6 +91,8 @@ EXTRA = {
  "C20": " Also: AddRule windows with permuted first observer, kept results, failing/short crypto/rand readers then healthy ones, n and character sets up to 2^20/2^18, cold-start and reconfigured-default child processes.",
 }
 
+COMMON = " Every clause of the statement is traced to a verdict, a workload and an observation floor (a run that stops producing a quantified situation is INCONCLUSIVE, not green); a slice of the main workload also runs on parallel workers under the race detector."
+
 built = sorted(p for p in T if os.path.isdir(os.path.join(V, "harness", "cmd", p.lower())))
 checks = []
 for p in built:
@@ -102,7 +104,7 @@ for p in built:
         "evidence_file": f"/verif/evidence/{p}.json",
         "replay_cmd_template": f"./check {p} --replay {{path}}",
         "engine": f"harness/cmd/{p.lower()}",
-        "level_claimed": {"category": "exploration", "text": text + EXTRA.get(p, ""), "design_ref": f"DESIGN.md section 3, {p}"},
+        "level_claimed": {"category": "exploration", "text": text + EXTRA.get(p, "") + COMMON, "design_ref": f"DESIGN.md section 3, {p}"},
         "level_note": note,
         "technique": "runtime monitoring: " + tech,
     })
@@ -121,7 +123,7 @@ m = {
    {"name": "ev", "path": "harness/ev", "serves_properties": built, "kind_free_text": "seeded case lists, child processes, witness/replay files, known-finding matching, evidence writer"},
    {"name": "sched+shim", "path": "harness/sched, harness/shim, harness/cmd/instrument", "serves_properties": ["C01", "C11", "C12"], "kind_free_text": "deterministic cooperative scheduler over import-redirected sync/atomic, sync, runtime (random walk, PCT, bounded-preemption sweep, replay)"},
    {"name": "hist", "path": "harness/hist", "serves_properties": ["C01", "C11", "C12"], "kind_free_text": "client-boundary history recorder + porcupine v1.3.0 models (bounded/unbounded FIFO with excusable failures, plain map)"},
-   {"name": "go race detector / checkptr", "path": "go build -race", "serves_properties": ["C01", "C03", "C07", "C09", "C10", "C11", "C12", "C15", "C19"], "kind_free_text": "reports collected from GORACE log files in child processes, de-duplicated by innermost golib frames"},
+   {"name": "go race detector / checkptr", "path": "go build -race", "serves_properties": built, "kind_free_text": "reports collected from GORACE log files in child processes, de-duplicated by innermost golib frames"},
  ],
  "checks": checks,
  "not_applicable": na,
